@@ -1,0 +1,25 @@
+// Copyright 2025 BINARY Members
+//
+// Licensed under the Apache License, Version 2.0 (the "License");
+// you may not use this file except in compliance with the License.
+// You may obtain a copy of the License at
+//
+//     http://www.apache.org/licenses/LICENSE-2.0
+//
+// Unless required by applicable law or agreed to in writing, software
+// distributed under the License is distributed on an "AS IS" BASIS,
+// WITHOUT WARRANTIES OR CONDITIONS OF ANY KIND, either express or implied.
+// See the License for the specific language governing permissions and
+// limitations under the License.
+
+//go:build verif
+
+package watermark
+
+// VerifSync returns after every mark sent before the call has been processed (verification harness only):
+// marks are handled in channel order and a waiter for index 0 is released as soon as it is handled.
+func (w *WaterMark) VerifSync() {
+	ch := make(chan struct{})
+	w.markC <- mark{ts: 0, waiter: ch}
+	<-ch
+}
